@@ -7,16 +7,18 @@ from vk import gen
 ID = "C03"
 LEVEL = "exploration"
 RULE = (
-    "Hypothesis draws bin tables (1..6 chromosomes incl. X/Y, 1..400 bins each, with/without a centromere-sized gap inside or "
-    "outside the central region, zero-weight bins, null-coverage bins at both edges and in the interior, a few extreme "
-    "outliers, duplicate gene names, Antitarget / ignored names, level plans with 0..3 steps and seeded noise) and a "
-    "configuration (method none / haar / hmm / hmm-tumor / hmm-germline; skip_low; skip_outliers 0/5/10; min_weight 0/0.3; "
-    "processes 1/2/3/16). Oracle: survivors are recomputed with the package's documented filters per arm (none, haar) or per "
-    "table (HMM); then per chromosome: segments sorted, positive length, disjoint, inside the input span, every survivor in "
-    "exactly one segment, probes = survivors inside, arm ends stretched to the first/last input bin (none, haar), weight = sum "
-    "and depth = weighted mean over all input bins spanned, gene = ordered distinct meaningful names, log2 = weighted mean of "
-    "survivors (none, HMM); parallel runs equal the serial run. Non-trivial = a filtered bin, or > 1 segment on a chromosome, or "
-    "an arm split; distinct = distinct case JSON."
+    "Hypothesis draws bin tables (1..6 chromosomes incl. X/Y, 1..400 bins each, with/without a centromere-sized "
+    "gap inside or outside the central region, zero-weight bins, null-coverage bins at both edges and in the "
+    "interior, a few extreme outliers, duplicate gene names, Antitarget / ignored names, level plans with 0..3 "
+    "steps and seeded noise) and a configuration (method none / haar / hmm / hmm-tumor / hmm-germline; skip_low; "
+    "skip_outliers 0/5/10; min_weight 0/0.3; processes 1/2/3/16). Oracle: survivors are recomputed with the "
+    "package's documented filters per arm (none, haar) or per table (HMM); then per chromosome: segments sorted, "
+    "positive length, disjoint, inside the input span, every survivor in exactly one segment, probes = survivors "
+    "inside, arm ends stretched to the first/last input bin (none, haar), weight = sum and depth = weighted mean "
+    "over all input bins spanned, gene = ordered distinct meaningful names, log2 = weighted mean of survivors "
+    "(none, HMM); parallel runs equal the serial run. A second wide gap or an interior null-coverage run > 100 kb "
+    "makes filtered arms that haar splits again; a third of the cases sit at 2.4e8 / beyond 2^31. Non-trivial = a "
+    "filtered bin, or > 1 segment on a chromosome, or an arm split; distinct = distinct case JSON."
 )
 QUICK = {"examples": 960, "shards": 16, "budget_s": 500, "shrink": False}
 THOROUGH = {"examples": 4000, "shards": 16, "budget_s": 3000}
